@@ -1,7 +1,13 @@
 """C12 — Julian dates and Greenwich sidereal time are exact."""
+import contextlib
 import datetime as dt
 import decimal
+import json
 import math
+import os
+import subprocess
+import sys
+import time
 import warnings
 from fractions import Fraction
 
@@ -17,7 +23,10 @@ RULE = ("calendar: every civil day 1900-01-01..2100-12-31 (complete) model vs nu
         "JDN; instants: random UTC instants 1900-2100 incl. leap days, century years, year/day boundaries, sub-second, in "
         "every representation (datetime, datetime64[s|ms|us|ns], object arrays, arrays); jdays2000 compared bit-exactly, "
         "gmst at 1e-11; oracle: |jdays - exact civil JD| <= 1e-9 d (Fraction arithmetic), gmst in [0,2pi), "
-        "|gmst - IAU-1982| <= 1e-7 rad (50-digit decimal arithmetic), daily advance; distinct = instant")
+        "|gmst - IAU-1982| <= 1e-7 rad (50-digit decimal arithmetic), daily advance; aware datetimes (UTC and offsets) also with "
+        "the process in non-UTC time zones (TZ + tzset); fresh interpreters running call orders (date-only value first, "
+        "instants first, arrays first, coarse units first) with every answer judged against the exact civil JD; "
+        "distinct = instant")
 ASSUMPTIONS = ["UT1 = UTC (as the statement says)",
                "IEEE-754 rounding of the day division and of the GMST polynomial is measured (1e-9 d, 1e-7 rad), not proved",
                "numpy's datetime64 calendar is modelled by days_from_civil and compared on every day 1900-2100"]
@@ -86,6 +95,200 @@ def gen_instants(ctx, n):
 def us_of(t):
     d = t - EPOCH70
     return (d.days * 86400 + d.seconds) * 10 ** 6 + d.microseconds
+
+
+# ---------------------------------------------------------------- time representations
+# POSIX rule strings (no tz database needed): the zone of the PROCESS must not matter for any representation
+ZONES = ["CET-1CEST,M3.5.0,M10.5.0/3", "PST8PDT,M3.2.0,M11.1.0", "IST-5:30", "AEST-10AEDT,M10.1.0,M4.1.0/3", "NPT-5:45", "<-03>3"]
+OFFSETS = [60, -480, 330, 0, 765, -210]            # minutes east of Greenwich for aware spellings
+TICK_US = {"dt64ns": None, "dt64us": 1, "dt64ms": 10 ** 3, "dt64s": 10 ** 6, "dt64m": 60 * 10 ** 6, "dt64h": 3600 * 10 ** 6,
+           "dt64D": 86400 * 10 ** 6, "dt64W": 7 * 86400 * 10 ** 6}
+DATE_KINDS = ("date", "dt64D", "dt64W", "dt64M", "dt64Y")
+INSTANT_KINDS = ("datetime", "aware", "dt64us", "dt64ns", "dt64ms", "dt64s")
+ARRAY_KINDS = ("arr_us", "arr_ns", "arr_obj", "arr_aware", "arr_s", "arr_D", "arr_date")
+COARSE_KINDS = ("dt64m", "dt64h")
+
+
+def canon(kind, t):
+    """The instant (naive UTC datetime) that the representation `kind` made from t denotes: t itself where the representation
+    can hold it, else the start of the second / minute / hour / day / week / month / year that numpy's datetime64 of that
+    unit stands for (a calendar date is midnight UTC of that day)."""
+    if kind in ("date", "arr_date", "arr_D"):
+        kind = "dt64D"
+    if kind == "arr_s":
+        kind = "dt64s"
+    if kind == "dt64M":
+        return dt.datetime(t.year, t.month, 1)
+    if kind == "dt64Y":
+        return dt.datetime(t.year, 1, 1)
+    q = TICK_US.get(kind)
+    if not q:
+        return t
+    us = us_of(t)
+    return EPOCH70 + dt.timedelta(microseconds=us - us % q)
+
+
+def make_value(kind, t, off_min=0):
+    """The time representation `kind` of canon(kind, t)."""
+    t = canon(kind, t)
+    us = us_of(t)
+    if kind == "datetime":
+        return t
+    if kind in ("aware", "arr_aware"):
+        a = t.replace(tzinfo=dt.timezone.utc).astimezone(dt.timezone(dt.timedelta(minutes=off_min)))
+        return a if kind == "aware" else np.array([a], dtype=object)
+    if kind == "date":
+        return t.date()
+    if kind == "dt64ns":
+        return np.datetime64(us * 1000, "ns")
+    if kind == "dt64M":
+        return np.datetime64((t.year - 1970) * 12 + t.month - 1, "M")
+    if kind == "dt64Y":
+        return np.datetime64(t.year - 1970, "Y")
+    if kind in TICK_US:
+        return np.datetime64(us // TICK_US[kind], kind[4:])
+    if kind == "arr_us":
+        return np.array([np.datetime64(us, "us")])
+    if kind == "arr_ns":
+        return np.array([np.datetime64(us * 1000, "ns")])
+    if kind == "arr_s":
+        return np.array([np.datetime64(us // 10 ** 6, "s")])
+    if kind == "arr_D":
+        return np.array([np.datetime64(us // (86400 * 10 ** 6), "D")])
+    if kind == "arr_obj":
+        return np.array([t], dtype=object)
+    if kind == "arr_date":
+        return np.array([t.date()], dtype=object)
+    raise ValueError(kind)
+
+
+def evaluate(val, fns=("jdays", "jdays2000", "gmst")):
+    """The three observables for one time value: {function: float} or {function: 'EXC ...'}."""
+    from pyorbital import astronomy
+    out = {}
+    for f in fns:
+        try:
+            with warnings.catch_warnings():
+                warnings.simplefilter("ignore")      # numpy warns that datetime64 has no time zone (it converts to UTC)
+                out[f] = float(np.atleast_1d(getattr(astronomy, f)(val))[0])
+        except Exception as e:  # noqa
+            out[f] = "EXC %s: %s" % (type(e).__name__, e)
+    return out
+
+
+def judge(vals, t_true):
+    """The absolute clauses of the statement for the instant t_true: list of (function, observed, required)."""
+    ex = exact_jd(t_true)
+    bad = []
+    for f, v in vals.items():
+        if not isinstance(v, float) or math.isnan(v) or math.isinf(v):
+            bad.append((f, v, "a finite value for the instant %s" % t_true.isoformat()))
+        elif f == "jdays":
+            if abs(Fraction(v) - ex) > Fraction(1, 10 ** 9):
+                bad.append((f, v, "civil JD %r of %s within 1e-9 d" % (float(ex), t_true.isoformat())))
+        elif f == "jdays2000":
+            if abs(Fraction(v) - (ex - 2451545)) > Fraction(1, 10 ** 9):
+                bad.append((f, v, "civil JD - 2451545.0 = %r of %s within 1e-9 d" % (float(ex - 2451545), t_true.isoformat())))
+        elif f == "gmst":
+            ref = iau82_gmst(ex)
+            dg = abs(decimal.Decimal(v) - ref)
+            dg = min(dg, TWO_PI_DEC - dg)
+            if not (0.0 <= v < 2 * math.pi):
+                bad.append((f, v, "[0, 2pi)"))
+            elif dg > decimal.Decimal("1e-7"):
+                bad.append((f, v, "IAU-1982 GMST %r of %s within 1e-7 rad" % (float(ref), t_true.isoformat())))
+    return bad
+
+
+@contextlib.contextmanager
+def process_tz(tz):
+    """Run a block with the process' local time zone set to the POSIX rule string tz (None: leave it as it is)."""
+    if tz is None:
+        yield
+        return
+    old = os.environ.get("TZ")
+    os.environ["TZ"] = tz
+    time.tzset()
+    try:
+        yield
+    finally:
+        if old is None:
+            os.environ.pop("TZ", None)
+        else:
+            os.environ["TZ"] = old
+        time.tzset()
+
+
+def repr_probe(ctx, t, kind, off_min, tz):
+    """One instant in one representation, evaluated with the process in zone tz: violations of the absolute clauses."""
+    with process_tz(tz):
+        vals = evaluate(make_value(kind, t, off_min))
+    return judge(vals, canon(kind, t))
+
+
+# ---------------------------------------------------------------- call orders in a fresh interpreter
+CHILD = r"""
+import json, sys
+spec = json.load(sys.stdin)
+sys.path.insert(0, spec["harness"])
+import lib                      # puts the code under test (PV_REPO) first on sys.path
+import datetime as dt
+from props import c12
+out = []
+for kind, iso, off in spec["order"]:
+    v = c12.evaluate(c12.make_value(kind, dt.datetime.fromisoformat(iso), off))
+    out.append({f: (lib.f2h(x) if isinstance(x, float) else x) for f, x in v.items()})
+import pyorbital
+print(json.dumps({"pyorbital": pyorbital.__file__, "out": out}))
+"""
+
+
+def run_order(order, tz):
+    """Evaluate the steps [(kind, iso, off_min)] in this order in a FRESH interpreter (its first time conversion is the first step),
+    optionally with the process zone tz.  Returns [{function: float | 'EXC ...'}] per step."""
+    env = dict(os.environ, PV_REPO=lib.REPO)
+    if tz is not None:
+        env["TZ"] = tz
+    spec = {"harness": os.path.dirname(os.path.dirname(os.path.abspath(__file__))), "order": order}
+    p = subprocess.run([sys.executable, "-c", CHILD], input=json.dumps(spec).encode(), env=env, stdout=subprocess.PIPE,
+                       stderr=subprocess.PIPE, timeout=300)
+    if p.returncode != 0:
+        raise RuntimeError("child interpreter failed: " + p.stderr.decode(errors="replace")[-800:])
+    res = json.loads(p.stdout.decode().strip().split("\n")[-1])
+    return [{f: (lib.h2f(x) if not x.startswith("EXC") else x) for f, x in step.items()} for step in res["out"]]
+
+
+def judge_order(order, tz):
+    """[(index, function, observed, required)] for every answer of the sequence that breaks an absolute clause."""
+    bad = []
+    for i, (step, vals) in enumerate(zip(order, run_order(order, tz))):
+        for f, v, req in judge(vals, canon(step[0], dt.datetime.fromisoformat(step[1]))):
+            bad.append((i, f, v, req))
+    return bad
+
+
+def gen_orders(ctx, inst):
+    """Call orders for fresh interpreters: which representation the process converts FIRST must not matter."""
+    r = ctx.rng
+
+    inst = [t for t in inst if t >= dt.datetime(1900, 1, 8)]      # the week holding the instant starts inside 1900-2100
+
+    def steps(kinds):
+        return [[k, r.choice(inst).isoformat(), r.choice(OFFSETS)] for k in kinds]
+
+    def mixed(n):
+        return [r.choice(INSTANT_KINDS + ARRAY_KINDS + DATE_KINDS + COARSE_KINDS) for _ in range(n)]
+    orders = []
+    for rep in range(ctx.size(1, 6)):
+        for first in DATE_KINDS:                                   # date-only value first, then ordinary instants in every representation
+            orders.append(("date_first:" + first, steps((first,) + INSTANT_KINDS + ARRAY_KINDS + DATE_KINDS + COARSE_KINDS), None))
+        orders.append(("instants_first", steps(INSTANT_KINDS + DATE_KINDS + ARRAY_KINDS + COARSE_KINDS), None))
+        orders.append(("arrays_first", steps(ARRAY_KINDS[:3] + DATE_KINDS + INSTANT_KINDS + ARRAY_KINDS[3:]), None))
+        for first in ("arr_D", "arr_date") + COARSE_KINDS + ("dt64s",):
+            orders.append(("coarse_first:" + first, steps((first,) + INSTANT_KINDS + DATE_KINDS), None))
+        orders.append(("aware_first", steps(("aware", "arr_aware", "datetime") + DATE_KINDS + INSTANT_KINDS), r.choice(ZONES)))
+        orders.append(("random", steps(mixed(14)), r.choice([None] + ZONES)))
+    return orders
 
 
 def correspond(ctx):
@@ -196,17 +399,34 @@ def oracle(ctx):
     for t in inst[:300]:
         us = us_of(t)
         ref = float(astronomy.jdays(t))
-        off = ctx.rng.choice([60, -480, 330, 0, 765])      # minutes: the same instant spelled in another UTC offset
-        aware = t.replace(tzinfo=dt.timezone.utc).astimezone(dt.timezone(dt.timedelta(minutes=off)))
-        for val in (np.datetime64(us, "us"), np.datetime64(us * 1000, "ns"), np.array([t], dtype=object), np.array([np.datetime64(us, "us")]),
-                    t.replace(tzinfo=dt.timezone.utc), aware):
+        off = ctx.rng.choice(OFFSETS)      # minutes: the same instant spelled in another UTC offset
+        for kind, o in (("dt64us", 0), ("dt64ns", 0), ("arr_obj", 0), ("arr_us", 0), ("aware", 0), ("aware", off), ("arr_aware", off)):
             ctx.count("eval_oracle_repr")
+            val = make_value(kind, t, o)
             with warnings.catch_warnings():
                 warnings.simplefilter("ignore")      # numpy warns that datetime64 has no time zone (it converts to UTC)
                 got = np.atleast_1d(astronomy.jdays(val))[0]
             if abs(float(got) - ref) > 1e-9:
-                ctx.violation("representation", {"utc": t.isoformat(), "repr": str(type(val)) + str(getattr(val, "dtype", ""))},
+                ctx.violation("representation", {"utc": t.isoformat(), "repr": kind, "offset_min": o, "tz": None},
                               float(got), ref, site="astronomy.jdays")
+    # ... whatever the local time zone of the process is: aware datetimes name their own offset, naive ones and datetime64 are UTC
+    for i, t in enumerate(inst[:ctx.size(300, 3000)]):
+        tz = ZONES[i % len(ZONES)]
+        off = ctx.rng.choice(OFFSETS)
+        for kind, o in (("aware", 0), ("aware", off), ("arr_aware", off), ("datetime", 0), ("dt64us", 0)):
+            ctx.count("eval_oracle_repr_tz")
+            ctx.bump("process_tz", tz)
+            for f, v, req in repr_probe(ctx, t, kind, o, tz):
+                ctx.violation("representation", {"utc": t.isoformat(), "repr": kind, "offset_min": o, "tz": tz, "function": f},
+                              v, req + " (process time zone %s)" % tz, site="astronomy." + f)
+    # fresh interpreters: the representation that the process converts first must not matter for any later (or that) answer
+    for name, order, tz in gen_orders(ctx, inst):
+        ctx.bump("call_order", name.split(":")[0])
+        bad = judge_order(order, tz)
+        ctx.count("eval_oracle_order", 3 * len(order))
+        for i, f, v, req in bad[:3]:
+            ctx.violation("call_order", {"order": order, "tz": tz, "family": name, "index": i, "function": f}, v,
+                          req + " (step %d, %s, of a fresh interpreter)" % (i, order[i][0]), site="astronomy." + f)
     ctx.note("worst |jdays - civil JD| = %.3g d; worst |gmst - IAU82| = %.3g rad" % (worst_jd, worst_g))
     # arrays of instants that are advanced IN PLACE between calls: every call answers for the instants the array holds now
     for t in inst[:ctx.size(60, 600)]:
@@ -252,6 +472,17 @@ def match_known(entry, v):
 def replay(ctx, case):
     from pyorbital import astronomy
     inp = case.get("input", case)
+    if "order" in inp:
+        bad = judge_order(inp["order"], inp.get("tz"))
+        for b in bad[:6]:
+            print("call order: step %d %s %s -> %r, required %s" % (b[0], inp["order"][b[0]][0], b[1], b[2], b[3]))
+        return 1 if bad else 0
+    if "repr" in inp:
+        bad = repr_probe(ctx, dt.datetime.fromisoformat(inp["utc"]), inp["repr"], inp.get("offset_min", 0), inp.get("tz"))
+        for b in bad:
+            print("representation %s offset %s process tz %s: %s -> %r, required %s" % (
+                inp["repr"], inp.get("offset_min"), inp.get("tz"), b[0], b[1], b[2]))
+        return 1 if bad else 0
     if "step_s" in inp:
         r = inplace_probe(ctx, dt.datetime.fromisoformat(inp["utc"]), inp["step_s"])
         print("in-place probe:", r)
